@@ -7,6 +7,7 @@ L2  every complete behaviour of a smaller instance is printed by TLC, replayed o
 L3  seeded random long streams recorded from the real code, validated by WindowTrace.tla
     against the requirement (existential choice of the aligned interval per firing).
 """
+import json
 import os
 import time
 import vlib
@@ -18,7 +19,9 @@ FAMILY = "window"
 def sig_for(run_events):
     r = run_events[0]
     shape = "width<slide" if r["w"] < r["s"] else ("width=k*slide" if r["w"] % r["s"] == 0 else "width>slide,non-multiple")
-    return f"CSPARQLWindow::add_to_window|{shape}|nonempty={r['nonempty']}|firings-not-aligned-intervals"
+    strat = "+".join(str(x[0]) for x in r.get("strat", []))
+    plain = strat in ("close", "close+nonempty")
+    return f"CSPARQLWindow::add_to_window|{shape}|nonempty={r['nonempty']}|" + ("" if plain else f"strategies={strat}|") + "firings-not-aligned-intervals"
 
 
 def validate(ctx, trace_path, verdict, tag):
@@ -32,6 +35,23 @@ def validate(ctx, trace_path, verdict, tag):
     return runs, failed, drift, res
 
 
+def model_validate(wd, trace_path, tag):
+    """Binding of the code-shaped model: every recorded call must be an outcome Window!AddOutcomes allows in the model state
+    reached so far (tla/window/WindowModelTrace.tla).  Lists with OnContentChange are left to the L2 alternatives (their
+    outcome depends on an unobservable iteration order, a branch that dies would print a spurious MODELDIFF)."""
+    events = vlib.read_ndjson(trace_path)
+    keep, on = [], False
+    for e in events:
+        if e["ev"] == "reset":
+            on = not any(x[0] == "change" for x in e.get("strat", []))
+        if on:
+            keep.append(e)
+    fp = os.path.join(wd, f"{tag}-model.ndjson")
+    vlib.write_ndjson(fp, keep)
+    res = vlib.tlc_trace(FAMILY, "WindowModelTrace.tla", "WindowModelTrace.cfg", fp, tag=f"c09-{tag}-model")
+    return sorted({d[0] for d in res["modeldiff"]}), sum(1 for e in keep if e["ev"] == "reset"), res["states"]
+
+
 def nontrivial(ev):
     # a run is non-trivial when at least one firing carried at least one item
     return any(f["items"] for e in ev if e["ev"] in ("add", "flush") for f in e["fired"])
@@ -42,7 +62,6 @@ def run(ctx):
     verdict = vlib.Verdict("C09", ctx.seed, ctx.tier)
     wd = vlib.workdir("c09")
     if ctx.replay:
-        import json
         case = json.load(open(ctx.replay))["case"]["case"]
         vlib.write_ndjson(os.path.join(wd, "cases.ndjson"), [case])
         vlib.kverif(["c09", "--cases", os.path.join(wd, "cases.ndjson"), "--out", os.path.join(wd, "replay.ndjson")])
@@ -60,15 +79,31 @@ def run(ctx):
     if neg["violated"] != "ExactlyOnce":
         raise vlib.ToolError("non-vacuity check failed: historic eviction no longer violates ExactlyOnce in the model")
 
-    # L2: TLC behaviours -> real code
+    # L1c: every other strategy list (NonEmptyContent first, Periodic, OnContentChange, without OnWindowClose)
+    mcs = vlib.tlc_mc(FAMILY, "MCWindow.tla", "MC_strat_thorough.cfg" if thorough else "MC_strat_quick.cfg", workers=8, tag="c09-strat")
+    log(f"L1 Window model, 8 further strategy lists: {mcs['states']} distinct states, violated={mcs['violated']}")
+    if mcs["violated"]:
+        raise vlib.ToolError(f"Window.tla violates {mcs['violated']} for a non-default strategy list: model and requirement disagree (not a verdict)")
+
+    # L2: TLC behaviours -> real code.  With OnContentChange the model has several behaviours per stream (HashMap iteration
+    # order): the alternatives are grouped and the observation must be one of them.
     behaviours, st = vlib.tlc_emit(FAMILY, "MCWindow.tla", "MC_emit_thorough.cfg" if thorough else "MC_emit_quick.cfg")
+    b2, st2 = vlib.tlc_emit(FAMILY, "MCWindow.tla", "MC_strat_emit_thorough.cfg" if thorough else "MC_strat_emit_quick.cfg", tag="window-emit-strat")
+    behaviours += b2
     kinds = ["callback", "channel", "runner"]
+    groups = {}
+    for b in behaviours:
+        key = json.dumps([b["w"], b["s"], b["strat"], b["stream"]])
+        g = groups.setdefault(key, {"b": b, "alts": []})
+        alt = [{"ts": f["ts"], "items": f["items"]} for f in b["fired"]]
+        if alt not in g["alts"]:
+            g["alts"].append(alt)
     cases = []
-    for n, b in enumerate(behaviours):
-        cases.append({"w": b["w"], "s": b["s"], "nonempty": b["nonempty"], "kind": kinds[n % 3],
+    for n, g in enumerate(groups.values()):
+        b = g["b"]
+        cases.append({"w": b["w"], "s": b["s"], "nonempty": any(x[0] == "nonempty" for x in b["strat"]), "strat": b["strat"], "kind": kinds[n % 3],
                       "items": [[i + 1, t] for i, t in enumerate(b["stream"])], "hasmodel": True,
-                      "model": [{"ts": f["ts"], "items": f["items"]} for f in b["fired"]],
-                      "mflush": {"items": b["flush"]["items"]}})
+                      "model": g["alts"], "mflush": {"items": b["flush"]["items"]}})
     vlib.write_ndjson(os.path.join(wd, "l2cases.ndjson"), cases)
     vlib.kverif(["c09", "--cases", os.path.join(wd, "l2cases.ndjson"), "--out", os.path.join(wd, "l2.ndjson")])
     runs2, failed2, drift2, res2 = validate(ctx, os.path.join(wd, "l2.ndjson"), verdict, "l2")
@@ -79,9 +114,14 @@ def run(ctx):
     vlib.kverif(["c09", "--random", n3, "--seed", ctx.seed, "--maxlen", 80 if thorough else 50, "--out", os.path.join(wd, "l3.ndjson")])
     runs3, failed3, drift3, res3 = validate(ctx, os.path.join(wd, "l3.ndjson"), verdict, "l3")
     log(f"L3 validated {len(runs3)} recorded runs: {len(failed3)} rejected")
+    mdrift3, mruns3, mstates3 = model_validate(wd, os.path.join(wd, "l3.ndjson"), "l3")
+    mdrift3 = [r for r in mdrift3 if r not in failed3]
+    log(f"L3 model binding: {mruns3} recorded runs stepped through Window.tla call by call: {len(mdrift3)} leave the model")
 
     if mc["violated"] and not (failed2 or failed3):
         raise vlib.ToolError(f"L1 invariant {mc['violated']} violated in the model but not reproduced on the code: model out of date")
+    if mdrift3 and not verdict.violations:
+        print(f"MODEL-DRIFT: property=C09 {len(mdrift3)} recorded run(s) satisfy the requirement but are not behaviours of Window.tla (first: run {mdrift3[0]})")
     if drift2 and not verdict.violations:
         log(f"MODEL-DRIFT: {len(drift2)} behaviours where the code differs from Window.tla while the requirement holds "
             f"(update the code-shaped model); not a verdict")
@@ -101,12 +141,14 @@ def run(ctx):
                 "non-trivial = at least one firing with a non-empty content.",
         "exhaustive": True,
         "l1_constants": "MC_thorough.cfg" if thorough else "MC_quick.cfg",
-        "l2_behaviours": len(cases), "l3_runs": len(runs3), "model_drift": len(drift2),
-        "trace_states": res2["states"] + res3["states"],
+        "l2_behaviours": len(cases), "l2_streams_with_several_model_outcomes": sum(1 for c in cases if len(c["model"]) > 1),
+        "l1_strategy_lists_states": mcs["states"], "l3_runs": len(runs3), "model_drift": len(drift2), "l3_runs_stepped_through_model": mruns3, "l3_model_drift": len(mdrift3),
+        "trace_states": res2["states"] + res3["states"] + mstates3,
     }
     vlib.write_evidence("C09", ctx.tier, ctx.seed, "model_checking", cov,
                         ["in-order streams (the property's precondition) - the generator never emits a decreasing timestamp",
                          "L1 exhaustive only within the constants of the cfg; beyond them evidence is trace validation of sampled runs",
-                         "Tick::TimeDriven; report strategies OnWindowClose and OnWindowClose+NonEmptyContent"],
+                         "Tick::TimeDriven; strategy lists: OnWindowClose, +NonEmptyContent (either order), +Periodic, Periodic / NonEmptyContent alone, "
+                         "and lists with OnContentChange (L1/L2 only; for these only 'nothing foreign' is required, see Window.tla)"],
                         time.time() - t0, len(verdict.violations))
     return rc
